@@ -53,16 +53,24 @@ class Field(HV):
 
   @property
   def key(self):
+    if self.owner not in ("Model", "Data"):
+      return f"ctx:{self.path.split('.')[-1]}"
     return f"{self.owner}.{self.path}"
 
 
 class Temp(HV):
-  def __init__(self, site, how, text, src=None, shape=None, fn=""):
+  def __init__(self, site, how, text, src=None, shape=None, fn="", ordinal=0):
     self.site, self.how, self.text, self.src, self.shape, self.fn = site, how, text, src, shape, fn
+    self.var = None  # first local variable it is bound to
+    self.ordinal = ordinal
+    self.ctx_attr = None  # field name when allocated as a keyword of a context-object constructor
 
   @property
   def key(self):
-    return f"temp@{self.site}"
+    # stable across line shifts: function + variable name (or ordinal of the inline allocation)
+    if self.ctx_attr:
+      return f"ctx:{self.ctx_attr}"
+    return f"temp:{self.fn}:{self.var or '#' + str(self.ordinal)}"
 
 
 class View(HV):
@@ -185,6 +193,7 @@ class HostInterp:
     self._loop_n = 0
     self.max_depth = max_depth
     self._temp_n = 0
+    self._fn_alloc_n: Dict[str, int] = {}
 
   # ------------------------------------------------------------------ entry
   def run(self, key: str, args: Optional[Dict[str, HV]] = None, **lit):
@@ -334,6 +343,8 @@ class HostInterp:
 
   def _assign(self, t, v, env, fi, pc, loc):
     if isinstance(t, ast.Name):
+      if isinstance(v, Temp) and v.var is None:
+        v.var = t.id
       env[t.id] = v
     elif isinstance(t, (ast.Tuple, ast.List)):
       items = None
@@ -657,7 +668,8 @@ class HostInterp:
       self._temp_n += 1
       src = a[0] if (d in ("wp.clone", "wp.zeros_like", "wp.empty_like", "wp.full_like", "wp.ones_like") and a) else None
       shape = kw.get("shape") or (a[0] if a and d not in ("wp.clone", "wp.array", "wp.from_numpy") and src is None else None)
-      t = Temp(loc, ALLOCS[d], f"{ALLOCS[d]}@{loc.split('/')[-1]}", src=src, shape=shape, fn=fi.key)
+      self._fn_alloc_n[fi.key] = self._fn_alloc_n.get(fi.key, 0) + 1
+      t = Temp(loc, ALLOCS[d], f"{ALLOCS[d]}@{loc.split('/')[-1]}", src=src, shape=shape, fn=fi.key, ordinal=self._fn_alloc_n[fi.key])
       self._emit("alloc", pc, loc, dst=t, src=src, name=ALLOCS[d], value=kw.get("value"))
       return t
     if d == "wp.capture_while":
@@ -771,6 +783,9 @@ class HostInterp:
       # keyword-constructed dataclass: remember fields
       for k, v in kwargs.items():
         o.overrides[k] = v
+        if isinstance(v, Temp) and v.var is None:
+          v.var = k
+          v.ctx_attr = k
       o.ctor_loc = loc
       o.ctor_fn = fi.key
       return o
